@@ -396,3 +396,11 @@ def probe_fail(rejects, msg):
         print("NOTE probes not decisive on this tree (%d of the code's own traces are rejected by P): %s" % (len(real), msg))
         return
     raise MachineryError(msg)
+
+
+def name_form(stem, ext, n):
+    """the same file under another NAME (sixth seeded round): evo decides what a file is by its content or by the option it is given
+    to, never by its name - so a usual name, an upper-case extension, no extension, a second suffix, a blank or several dots in the
+    name must all behave alike.  n selects the form."""
+    forms = [stem + ext, stem + ext.upper(), stem, stem + ext + ".bak", "my " + stem + ext, stem + ".v2" + ext, stem + ".run1"]
+    return forms[n % len(forms)]
